@@ -124,6 +124,20 @@ def cli_invoke(args):
     return r.exit_code, r.exception
 
 
+def leave_stale(out, key):
+    """What an earlier run may have left at an output path: for one case in three (chosen by `key`, a string that is
+    a function of the case) a file of another kind is put there first -- shorter than any SGZ header, or much longer
+    than the file about to be written.  A writer replaces it; nothing of it may survive."""
+    import zlib
+    k = zlib.crc32(str(key).encode())
+    if k % 3 or os.path.exists(out):
+        return None
+    size = [100, 5000, 3_000_000][(k // 3) % 3]
+    with open(out, "wb") as f:
+        f.write((b"stale content of an earlier run \x00\xff" * (size // 34 + 1))[:size])
+    return size
+
+
 def read_bytes(path):
     with open(path, "rb") as f:
         return f.read()
